@@ -594,7 +594,9 @@ class ExcelModel:
 
         for k, v in res.items():
             if k in dsp.data_nodes and k not in dsp.default_values:
-                dsp.set_default_value(k, v.value)
+                dsp.set_default_value(
+                    k, v.value if isinstance(v, Ranges) else v
+                )
 
         func = self.compile_class(
             dsp=dsp,
